@@ -1370,6 +1370,9 @@ class UnitDatabase(Singleton):
         :param value2:
         :rtype: tuple(IQuantity, value)
         """
+        if not quantity1.GetCategoryToUnitAndExps() and quantity2.GetCategoryToUnitAndExps():
+            # a plain number times a quantity: the quantity is kept as it is (see below)
+            return quantity2, value1 * value2  # type:ignore[operator]
         return self._DoOperationResultingInNewQuantity(
             quantity1, quantity2, value1, value2, lambda a, b: a + b, lambda a, b: a * b
         )
@@ -1451,6 +1454,11 @@ class UnitDatabase(Singleton):
         # in the quantity2 (without changing anything in the categories at this time)
         category_to_unit_and_exp1 = quantity1.GetCategoryToUnitAndExpsCopy()
         category_to_unit_and_exp2 = quantity2.GetCategoryToUnitAndExpsCopy()
+
+        if category_to_unit_and_exp1 and not category_to_unit_and_exp2:
+            # the second operand has no unit (e.g. a plain number): the first quantity is kept
+            # as it is (rebuilding it from its units would drop the caption of an unknown unit)
+            return quantity1, operation(value1, value2)
 
         (
             category_to_unit_and_exp1,
